@@ -413,8 +413,7 @@ def class_of(c, rec):
             return "C15-money-symbol-names-other-currency"
     if ty == "Duration" and abs(it["secs"]) % YEAR_S >= 12 * MONTH_S:
         return "C15-twelve-months"
-    if ty == "Time" and m["lang"] == "tr":
-        return "C15-tr-time-zone-not-joined"
+    # (a printed time re-reads under tr as under en since /repo 9da74e2 - formerly class C15-tr-time-zone-not-joined)
     if ty == "DateTime":
         return "C15-datetime-print-unreadable"
     if ty == "Number" and it.get("nt") == "Raw" and tsep != "" and len(re.sub(r"[^0-9]", "", o)) >= 4:
